@@ -120,6 +120,7 @@ class Interp:
         self.overrides: dict = {}  # name -> value (contract-provided module-level stubs)
         self.contracts: dict = {}  # (module name, qualname) -> callable(interp, args, kwargs)
         self.loop_specs: dict = {}  # (qualname, ordinal) -> LoopSpec
+        self.local_def_overrides: dict = {}  # (outer qualname, name) -> callable(real Function) -> value
         self.traces: list[LoopTrace] = []
         self.call_depth = 0
         self.dropped: set[str] = set()
@@ -130,6 +131,7 @@ class Interp:
         A.HOOKS["read"] = self._on_read
         A.HOOKS["write"] = self._on_write
         A.HOOKS["bounds"] = self._on_bounds
+        A.HOOKS["fact"] = lambda f: self.ctx.assume(f)
 
     # ------------------------------------------------------------------ hooks
     def _on_read(self, buf, idx):
@@ -253,6 +255,8 @@ class Interp:
             return mod.get(name)
         if name in self.builtins:
             return self.builtins[name]
+        if name == "__name__":
+            return mod.name if mod else "__main__"
         if name in self.stub_names:
             return self.stub_names[name]
         raise Unsupported(f"unknown name `{name}` in {mod.name if mod else '?'}")
@@ -1148,6 +1152,9 @@ class Interp:
                 self.dropped.add("@overload " + st.name)
                 return  # registration only; does not bind a usable python function
             self.dropped.add("@" + ds.split("(")[0])
+        okey = (fr.func.qualname if fr.func is not None else "", st.name)
+        if okey in self.local_def_overrides:
+            v = self.local_def_overrides[okey](f)
         fr.locals[st.name] = v
 
     def s_Import(self, st, fr):
@@ -1469,9 +1476,21 @@ class Interp:
                     collisions.append(z3.And(*c))
             claim = z3.Not(z3.And(i != i_p, z3.Or(*collisions)))
             fn = key[0] or "<module>"
+            extra = []
+            if A.INJECTIVE:  # flattening terms of both copies need their (guarded) inverse facts
+                seen_t = set()
+                todo = [claim]
+                while todo:
+                    x = todo.pop()
+                    if x.get_id() in seen_t:
+                        continue
+                    seen_t.add(x.get_id())
+                    if z3.is_app(x) and x.decl().name() in A.INJECTIVE:
+                        extra.append(A.injective_axiom(x))
+                    todo.extend(x.children())
             ctx.prove(
                 f"{fn}/loop{key[1]}.iterations_independent[{buf.name}]",
-                claim,
+                claim, extra_premises=extra,
                 info={"kind": "independence", "prange": is_prange, "line": st.lineno},
             )
 
